@@ -17,6 +17,13 @@ compared through the ordered side-effect log):
       (object alphabet) and typed int / double / Py_UCS4 / uchar / str / bytes against literal
       containers of constants of that type (every sequence of length 1-4 over a 3-constant set, so
       duplicates and order vary) - this is what FlattenInListTransform and the C switch rewrite see.
+ d  numeric pairs through the int/float compare helpers: every ordered pair over a set of Python ints that differ in
+      exactly one 30-bit digit (every digit position of 3-, 4- and 5-digit ints), in sign or in digit count, and
+      int/float boundary values (2**53+1, 2.0**64, inf, nan), for operands typed object / int / float, as value,
+      as `if` condition, in 2-link chains, flattened `in (b, c)` and if/elif chains.
+ e  switch subjects that are C-typed ATTRIBUTES (pure-mode cdef classes): same attribute of one object, the same
+      attribute name on two different objects, two attributes of one object, a.b.kind vs c.b.kind - all arm layouts
+      over a condition pool x all value pairs in {0..4}^2, use_switch on and off.
  c  if/elif chains that SwitchTransform rewrites: every layout of 1-3 (thorough 1-4) arms, each arm's
       condition from a pool {x == c, c == x, x == c1 or x == c2, x in (c...), x in (c, c) duplicates,
       constant outside the type range, x != c1 and x != c2, x not in (...)} with overlapping constants
@@ -308,10 +315,106 @@ def family_switch(tier):
     return b
 
 
+
+# ----------------------------------------------------------------------------- family d: multi-digit int / float pairs
+BIGS = ['2**60', '2**60 + 1', '2**64', '2**64 + 1', '2**64 + 2**30', '2**90', '2**90 + 1', '2**90 + 2**31', '2**90 + 2**60',
+        '2**120', '2**120 + 1', '2**120 + 2**30', '2**120 + 2**61', '2**120 + 2**91']
+NUMS = (BIGS + ['-(%s)' % v for v in BIGS] +
+        ['0', '1', '-1', '2**30 - 1', '2**30', '2**30 + 1', '2**31', '2**53', '2**53 + 1', '-2**53 - 1', '2**59 + 1', '-2**30'])
+FLTS = ['0.0', '-0.0', '1.0', '1.5', '2.0**30', '2.0**53', '2.0**53 + 2', '2.0**60', '2.0**64', '-2.0**64', '2.0**90', '1e300',
+        "float('inf')", "float('-inf')", "float('nan')", '-1.5']
+
+
+def family_numeric(tier):
+    """Every pair of multi-digit Python ints that differ in exactly one 30-bit digit (each digit position of 3-, 4- and
+    5-digit ints), in sign, or in digit count, plus int/float boundary pairs - through the PyObjectCompare helpers."""
+    quick = tier == 'quick'
+    b = Builder()
+    forms = [('oo', 'a, b', NUMS + FLTS[:8], NUMS + FLTS[:8]), ('ii', 'a: int, b: int', NUMS, NUMS), ('io', 'a: int, b', NUMS, NUMS + FLTS),
+             ('oi', 'a, b: int', NUMS + FLTS, NUMS), ('if', 'a: int, b: float', NUMS, FLTS), ('fi', 'a: float, b: int', FLTS, NUMS),
+             ('fo', 'a: float, b', FLTS, NUMS + FLTS), ('of', 'a, b: float', NUMS + FLTS, FLTS), ('ff', 'a: float, b: float', FLTS, FLTS)]
+    for fname, params, va, vb in forms:
+        for op in CMP6:
+            b.add(params, 'return a %s b' % op, 'num/%s/%s' % (fname, op), Prod(va, vb), 'n_%s' % fname)
+            if op in ('==', '<', '!=') or not quick:
+                b.add(params, 'if a %s b:\n    return 1\nreturn 0' % op, 'num-if/%s/%s' % (fname, op), Prod(va, vb), 'n_%s' % fname)
+    tri = BIGS[:8] + ['-(2**64)', '-(2**64 + 1)', '1', '2.0**64']
+    if quick:
+        tri = tri[:5] + tri[8:]
+    for params, tname in (('a, b, c', 'ooo'), ('a: int, b: int, c: int', 'iii'), ('a: int, b, c: int', 'ioi')):
+        vals = tri if tname != 'iii' else [v for v in tri if '.' not in v]
+        for ops in (('<', '<'), ('==', '=='), ('<=', '!='), ('!=', '>'), ('==', '<')):
+            b.add(params, 'return LO(0, a) %s LO(1, b) %s LO(2, c)' % ops, 'num-chain/%s/%s' % (tname, ','.join(ops)), Prod(vals, vals, vals), 'n3_' + tname)
+        b.add(params, 'return LO(0, a) in (b, c), LO(1, a) not in [b, c]', 'num-in/%s' % tname, Prod(vals, vals, vals), 'n3_' + tname)
+        b.add(params, "if a == b:\n    ev('arm', 0)\n    return 1\nelif a == c:\n    ev('arm', 1)\n    return 2\nelif a < c:\n    return 3\nreturn 0",
+              'num-elif/%s' % tname, Prod(vals, vals, vals), 'n3_' + tname)
+    big_lits = ['2**64', '2**64 + 1', '-(2**64)', '2**90 + 2**31']
+    b.add('x', 'return (%s)' % ', '.join('x == %d, %d != x, x < %d, x in (%d, 1)' % ((eval(v),) * 4) for v in big_lits), 'num-lit/obj',
+          Prod(NUMS + FLTS[:9]), 'n1')
+    b.add('x: int', 'return (%s)' % ', '.join('x == %d, %d != x, x < %d, x in (%d, 1)' % ((eval(v),) * 4) for v in big_lits), 'num-lit/int',
+          Prod(NUMS), 'n1i')
+    return b
+
+
+# ----------------------------------------------------------------------------- family e: switch subjects that are C attributes
+ATTR_PRELUDE = PRELUDE + """
+@cython.cclass
+class Inner:
+    kind: cython.int
+    def __init__(self, kind):
+        self.kind = kind
+
+@cython.cclass
+class Outer:
+    kind: cython.int
+    other: cython.int
+    b: Inner
+    def __init__(self, kind, other, bkind):
+        self.kind = kind
+        self.other = other
+        self.b = Inner(bkind)
+"""
+
+
+def family_attr_switch(tier):
+    """SwitchTransform subjects that are C-typed attribute accesses: the same attribute of the same object (one common
+    subject), the same attribute NAME on two different objects, two attribute names on one object, a.b.kind vs c.b.kind.
+    a = Outer(p, q, p), c = Outer(q, p, q): the first subject always has the value p, the second q (p for same-object pairs)."""
+    quick = tier == 'quick'
+    b = Builder()
+    pairs = [('same', 'a.kind', 'a.kind'), ('two-objects', 'a.kind', 'c.kind'), ('two-attrs', 'a.kind', 'a.other'),
+             ('nested-two-objects', 'a.b.kind', 'c.b.kind'), ('nested-same', 'a.b.kind', 'a.b.kind'), ('nested-vs-plain', 'a.b.kind', 'c.kind'),
+             ('attr-vs-local', 'a.kind', 'q')]
+    vals = [str(v) for v in range(5)]
+    setup = 'a: Outer = Outer(p, q, p)\nc: Outer = Outer(q, p, q)\n'
+    for pname, s1, s2 in pairs:
+        exprs = ['{0} == 1 or {1} == 2', '{0} == 1 or {1} == 2 or {0} == 3', '{0} != 1 and {1} != 2', '10 if ({0} == 1 or {1} == 2) else 20',
+                 '{0} in (1, 2) or {1} in (2, 3)', '{1} == 2 or {0} == 1 or {1} == 4', '{0} not in (1, 2) and {1} != 3']
+        for k, e in enumerate(exprs):
+            b.add('p: cython.int, q: cython.int', setup + 'return ' + e.format(s1, s2), 'attr-switch/%s/expr%d' % (pname, k), Prod(vals, vals), 'pq')
+        p1 = ['{0} == 1', '{0} == 1 or {0} == 2', '{0} in (1, 3)']
+        p2 = ['{1} == 2', '{1} == 2 or {1} == 3', '{1} in (2, 4)', '{1} == 1']
+        p3 = [None, '{0} == 4', '{1} == 0 or {0} == 0']
+        if quick:
+            p2, p3 = p2[:3], p3[:2]
+        for (i1, c1), (i2, c2), (i3, c3), has_else in itertools.product(enumerate(p1), enumerate(p2), enumerate(p3), (False, True)):
+            lines = ['if %s:' % c1.format(s1, s2), "    ev('arm', 0)", '    r = 1', 'elif %s:' % c2.format(s1, s2), "    ev('arm', 1)", '    r = 2']
+            if c3:
+                lines += ['elif %s:' % c3.format(s1, s2), "    ev('arm', 2)", '    r = 3']
+            if has_else:
+                lines += ['else:', "    ev('arm', 'else')", '    r = -1']
+            else:
+                lines = ['r = 0'] + lines
+            lines.append('return r')
+            b.add('p: cython.int, q: cython.int', setup + '\n'.join(lines),
+                  'attr-switch/%s/if%d%d%d/%s' % (pname, i1, i2, i3, 'else' if has_else else 'noelse'), Prod(vals, vals), 'pq')
+    return b
+
+
 def build_key(m, r):
     tags = [f.tag for f in m.funcs]
     t = tags[0] if tags else m.name
-    if t.startswith('switch/'):
+    if t.startswith(('switch/', 'attr-switch/')):
         t = '/'.join(t.split('/')[:2])
     return 'build-failure|%s|%s' % (r.stage, t)
 
@@ -337,30 +440,37 @@ def keyfn(tag, inp, exp, got):
         tag = 'switch/' + parts[1] if parts[1] != 'obj' else 'lit/obj/if-chain'
     elif parts[0] == 'lit':
         tag = '/'.join(parts[:3])
+    elif parts[0] == 'attr-switch':
+        tag, where = '/'.join(parts[:2]), ''          # which arm is taken wrongly depends on the values only
+    elif parts[0].startswith('num'):
+        tag, where = 'num/' + parts[1], ''
     cl = sorted(set(g5.classify(e).split(':')[0].split('[')[0] for e in inp))
     return '%s|%s|%s|%s' % (tag, ','.join(cl), where, div)
 
 
 def run(ctx):
-    fams = [('c19a', family_chains(ctx.tier), 50), ('c19b', family_literals(ctx.tier), 30), ('c19c', family_switch(ctx.tier), 80)]
+    fams = [('c19a', family_chains(ctx.tier), 50, PRELUDE), ('c19b', family_literals(ctx.tier), 30, PRELUDE),
+            ('c19c', family_switch(ctx.tier), 80, PRELUDE), ('c19d', family_numeric(ctx.tier), 40, PRELUDE),
+            ('c19e', family_attr_switch(ctx.tier), 90, ATTR_PRELUDE)]
     flt = os.environ.get('VERIF_G5_FILTER')
     mods = []
     nf = 0
-    for prefix, b, per in fams:
+    for prefix, b, per, prelude in fams:
         parts = [p for p in b.parts if not flt or flt in p.funcs[0].tag]
         nf += len(parts)
         for i in range(0, len(parts), per):
-            mods.append(e2.Mod('%s_%d' % (prefix, i // per), PRELUDE, parts[i:i + per], b.sets, ext='.py', use_log=True))
-            if prefix == 'c19c' and (ctx.tier == 'thorough' or i == 0):
-                mods.append(e2.Mod('%sns_%d' % (prefix, i // per), PRELUDE, parts[i:i + per], b.sets, ext='.py', use_log=True,
+            mods.append(e2.Mod('%s_%d' % (prefix, i // per), prelude, parts[i:i + per], b.sets, ext='.py', use_log=True))
+            if prefix in ('c19c', 'c19e') and (ctx.tier == 'thorough' or i == 0):
+                mods.append(e2.Mod('%sns_%d' % (prefix, i // per), prelude, parts[i:i + per], b.sets, ext='.py', use_log=True,
                                    directives={'optimize.use_switch': False}))
     ctx.log('%d functions in %d modules' % (nf, len(mods)))
     st = g5.run_diff(ctx, mods, keyfn=keyfn, reach=REACH, timeout=600, groups_per_mod=2, build_key=build_key)
-    allp = [p for _, b, _ in fams for p in b.parts]
+    allp = [p for _, b, _, _ in fams for p in b.parts]
     samples = [{'function': allp[i].src, 'tag': allp[i].funcs[0].tag} for i in (0, len(allp) // 2, len(allp) - 1)]
     cov = g5.cov_from(st, 'every (function, operand tuple); counted once per distinct (function, reference outcome + evaluation log)', samples,
                       {'chain_functions': len(fams[0][1].parts), 'literal_functions': len(fams[1][1].parts),
-                       'switch_functions': len(fams[2][1].parts), 'use_switch_off_modules': sum(1 for m in mods if 'ns_' in m.name)})
+                       'switch_functions': len(fams[2][1].parts), 'numeric_pair_functions': len(fams[3][1].parts),
+                       'attribute_switch_functions': len(fams[4][1].parts), 'use_switch_off_modules': sum(1 for m in mods if 'ns_' in m.name)})
     return cov, ['is/is not only between Python objects', 'C-typed operands only receive representable values']
 
 
